@@ -28,6 +28,15 @@ def generate(seed, npk, nprog, tag="g"):
         pkgs.append(("%s%02d" % (tag, k), gens))
     return pkgs
 
+def all_packages(seed, npk, nprog, tier):
+    return generate(seed, npk, nprog) + corpus_packages(tier)
+
+def corpus_packages(tier):
+    """always-on programs: identity / absorbing constants against trap values (see fraggen.identity_trap_corpus).
+    quick: the division / modulo / shift families and the reverting cases; thorough: everything"""
+    packs = fraggen.identity_trap_corpus("z", full=(tier != "quick"))
+    return [("z%02d" % i, gens) for i, gens in enumerate(packs)]
+
 def package_source(gens):
     return "library;\n\n" + "\n".join(g.p.sway() for g in gens)
 
